@@ -234,6 +234,10 @@ class C13(Prop):
         cfg["n_queries"] = rng.choice([20, 40, 60])
         cfg["cache_toggle"] = rng.random() < 0.7
         cfg["edit_rate"] = rng.choice([0.0, 0.0, 0.1, 0.3])
+        # cells of one name in two libraries (a wrapper work.buf around prims.buf): a name is unique per library only
+        cfg["twin_defs"] = rng.random() < 0.35
+        if cfg["twin_defs"]:
+            cfg["n_libs"] = max(2, cfg["n_libs"])
         return cfg
 
     def make_gen(self, w, rng, cfg):
@@ -405,7 +409,15 @@ class C13(Prop):
         if lower - got:
             missing = lower - got
             # exact pattern, several elements of one scope share the value, one of them is returned
-            if not is_re and is_case and all(not has_wild(p) for p in pats) and got:
+            def scope(e):
+                k = kind_of(e)
+                if k is None:
+                    return getattr(e, "parent", None)       # a hierarchical reference: the reference above it
+                return (e.netlist if k == "library" else e.library if k == "definition" else
+                        e.definition if k in ("port", "cable") else e.parent if k == "instance" else None)
+            same_scope = all(any(scope(byid[m]) is scope(byid[g]) and scope(byid[m]) is not None for g in got if g in byid)
+                             for m in missing)
+            if not is_re and is_case and all(not has_wild(p) for p in pats) and got and same_scope:
                 sig = "C13.exact_returns_first_of_duplicates@nonunique_value"
                 if sig in self.known:
                     w.count("known." + sig)
